@@ -1,6 +1,7 @@
 package medialib
 
 import (
+	"sync/atomic"
 	"fmt"
 	"strings"
 	"time"
@@ -73,7 +74,12 @@ func (sc Script) Line(tag string) string {
 // Returns the index of the first op whose observation differs (-1 if none) and the
 // observed / expected strings at that point.
 func (sc Script) RunImpl(expected []string) (int, string, string) {
-	w := NewWorld(sc.Hevc, sc.Gop)
+	InstallCounters()
+	pops0 := atomic.LoadInt64(&demuxPops)
+	// every second H.264 script runs on a stream whose SDP has no parameter sets (a function of the
+	// script alone, so a case line replays the same way)
+	w := NewWorldSdp(sc.Hevc, sc.Gop, !sc.Hevc && len(sc.Ops)%2 == 1)
+	published, catchUp := int64(0), true
 	defer func() {
 		for _, r := range w.Recs {
 			r.Resume()
@@ -84,11 +90,23 @@ func (sc Script) RunImpl(expected []string) (int, string, string) {
 	for i, o := range sc.Ops {
 		switch o.Code {
 		case 'P':
+			var perr error
 			if o.Raw != nil {
 				raw := *o.Raw
-				w.PublishWith(func(uid uint32) *rtp.Packet { return MkRaw(uid, raw, sc.Hevc) })
+				_, _, perr = w.PublishWith(func(uid uint32) *rtp.Packet { return MkRaw(uid, raw, sc.Hevc) })
 			} else {
-				w.Publish(o.Kind, o.Extra)
+				_, _, perr = w.Publish(o.Kind, o.Extra)
+			}
+			if perr == nil {
+				published++
+			}
+			if catchUp && perr == nil {
+				// let the stream's own demuxer take the packet (it passes its pop once at start and once
+				// per packet); no verdict hangs on this wait, a demuxer that died just ends the waiting
+				catchUp = Eventually(2*time.Second, func() bool { return atomic.LoadInt64(&demuxPops) >= pops0+1+published })
+				if !catchUp {
+					atomic.AddInt64(&CatchUpLost, 1)
+				}
 			}
 		case 'J':
 			if _, dup := recs[o.Name]; !dup {
@@ -177,7 +195,7 @@ func GenScript(r *hlib.Rng, profile string, maxOps int) Script {
 		case (profile == "classify" && x < 55) || (profile == "backlog" && x < 30):
 			sc.Ops = append(sc.Ops, Op{Code: 'P', Raw: GenRaw(r, sc.Hevc)})
 		case x < 55 || (profile == "backlog" && x < 85):
-			sc.Ops = append(sc.Ops, Op{Code: 'P', Kind: pubKind(), Extra: r.Intn(6)})
+			sc.Ops = append(sc.Ops, Op{Code: 'P', Kind: pubKind(), Extra: genExtra(r)})
 		case x < 70:
 			pa := 0
 			if r.Chance(12) {
@@ -205,7 +223,7 @@ func GenScript(r *hlib.Rng, profile string, maxOps int) Script {
 			sc.Ops = append(sc.Ops, Op{Code: 'X'})
 			closed = r.Chance(70)
 		default:
-			sc.Ops = append(sc.Ops, Op{Code: 'P', Kind: pubKind(), Extra: r.Intn(6)})
+			sc.Ops = append(sc.Ops, Op{Code: 'P', Kind: pubKind(), Extra: genExtra(r)})
 		}
 	}
 	return sc
@@ -239,4 +257,15 @@ func GenRaw(r *hlib.Rng, hevc bool) *RawSpec {
 		}
 	}
 	return sp
+}
+
+// CatchUpLost counts the scripts in which the stream's demuxer stopped following the publisher
+var CatchUpLost int64
+
+// genExtra: mostly tiny bodies; one in five is larger and carries emulation-prevention patterns
+func genExtra(r *hlib.Rng) int {
+	if r.Chance(20) {
+		return 8 + r.Intn(33)
+	}
+	return r.Intn(6)
 }
